@@ -326,6 +326,64 @@ def _chunk(arg) -> dict:
     return {"n": n, "nontrivial": nontrivial, "outcomes": outcomes, "violations": list(viols.values()), "samples": [sample] if sample else []}
 
 
+# ---------------------------------------------------------------------------------------------------
+# E2: operation sequences on live circuits - the text a circuit serialises to, what that text parses back to, and what the short
+# spelling with every sub-circuit omitted parses to, after in-place modifications of (other) elements
+
+from vf import circuit_history as H
+
+_DRIVER = None
+
+
+def _driver():
+    global _DRIVER
+    if _DRIVER is None:
+        _setup()
+        from pyimpspec import parse_cdc
+        from vf.checks.c01 import HIST_SUBJECTS, setup as c01_setup
+
+        c01_setup()
+
+        import re
+
+        def nofix(text):
+            # the construction routes differ in the fixed flag of explicitly given values (CDC: fixed only with the F marker; objects:
+            # the class default); no operation of this alphabet touches fixed flags, so they are left out of the comparison
+            return re.sub(r"(\d)F/", r"\1/", text)
+
+        def ser(c):
+            try:
+                return ("ok", (nofix(c.serialize()),))
+            except Exception as ex:
+                return ("error", type(ex).__name__)
+
+        def rt(c):
+            try:
+                return ("ok", (nofix(parse_cdc(c.serialize()).serialize()),))
+            except Exception as ex:
+                return ("error", type(ex).__name__)
+
+        def default_spelling(c):
+            # state-independent: the short spelling of two default transmission lines always parses to the documented defaults
+            try:
+                return ("ok", (nofix(parse_cdc("TlmTlm{X_2=short}").serialize()),))
+            except Exception as ex:
+                return ("error", type(ex).__name__)
+
+        def default_reference(c):
+            d = HIST_SUBJECTS["TlmTlm(defaults)"]
+            return ("ok", (nofix(G.circuit_from_objects(d["tree"], d["explicit"]).serialize()),))
+
+        _DRIVER = H.Driver(HIST_SUBJECTS, {"serialize": ser, "serialize>parse>serialize": rt, "parse 'TlmTlm{X_2=short}'": default_spelling},
+                           {"serialize": ser, "serialize>parse>serialize": ser, "parse 'TlmTlm{X_2=short}'": default_reference},
+                           key_prefix="history", with_copy=True, case_extra={"part": "history"}, obs_word="the text from")
+    return _DRIVER
+
+
+def _hist_chunk(arg) -> dict:
+    return _driver().chunk(*arg)
+
+
 def run(ctx) -> None:
     thorough = ctx.tier == "thorough"
     _setup()
@@ -349,12 +407,18 @@ def run(ctx) -> None:
     k = 96
     ctx.pmap(_chunk, [(small[i::k], max_dev, True) for i in range(k) if small[i::k]], label=f"round trips + spellings (<= {max_dev} switches)")
     ctx.pmap(_chunk, [(big[i::k], 0 if thorough else -1, True) for i in range(k) if big[i::k]], label="round trips of larger circuits")
+    depth = 5 if thorough else 4
+    ctx.pmap(_hist_chunk, _driver().jobs(depth), label=f"operation sequences of length {depth} on live circuits: serialise / re-parse / parse the default spelling "
+             "/ modify a (nested) element in place / replace a sub-circuit / deepcopy, 3 subjects x 3 routes")
     ctx.extra["circuit_asts"] = len(items)
     ctx.extra["spelling_variants_per_circuit"] = len(M.spell_variants(max_dev))
 
 
 def replay(case: dict) -> list:
     np = _setup()
+    if case.get("part") == "history":
+        v = _driver().violation(case["history"], case["route"], [list(o) for o in case["ops"]])
+        return [v] if v else []
     tree = M.tuple_tree(case["tree"])
     leaves = _unjson_leaves(case["leaves"])
     sw = case.get("sw")
